@@ -121,6 +121,16 @@ def _pending_then_read(objs):
             [(b.title, sorted(nm(t) for t in b.tags), nm(b.author)) for b in sorted(objs['books'], key=lambda b: b.id)])
 
 
+def _add_then_remove(objs):
+    """a NEW link added and taken out again with no query in between (b0 is not tagged t1, b1 not t3 in the stored data): however the collections became known, they say what they said before"""
+    t1, t3 = _tag(objs, 't1'), _tag(objs, 't3')
+    b0, b1 = _by(objs['books'], 'b0'), _by(objs['books'], 'b1')
+    t1.books.add(b0); t1.books.remove(b0)
+    b1.tags.add(t3); t3.books.remove(b1)                      # taken out through the other end
+    return ([(t.label, t.books.count(), t.books.is_empty(), len(t.books), sorted(nm(b) for b in t.books)) for t in sorted(objs['tags'], key=lambda t: t.id)],
+            [(b.title, b.tags.count(), b.tags.is_empty(), sorted(nm(t) for t in b.tags)) for b in (b0, b1)])
+
+
 def nm(o): return None if o is None else getattr(o, 'name', None) or getattr(o, 'title', None) or getattr(o, 'label', None) or getattr(o, 'text', None)
 
 
@@ -149,6 +159,7 @@ PROGRAMS = {
     'pending_add_then_assign': lambda M, objs: _pending_then_assign(objs, 'add'),
     'pending_remove_then_assign': lambda M, objs: _pending_then_assign(objs, 'remove'),
     'pending_changes_then_read_everything': lambda M, objs: _pending_then_read(objs),
+    'pending_add_then_remove_of_the_same_link': lambda M, objs: _add_then_remove(objs),
     # membership questions asked of collections that were never touched, after OTHER collections were iterated (which fills the reverse sides partly)
     'membership_after_partial_loads': lambda M, objs: _membership(objs),
     'lazy_attributes_only': lambda M, objs: ([(a.bio, a.name) for a in objs['authors']], [(b.notes, b.title, getattr(b, 'edition', '-')) for b in objs['books']]),
@@ -215,5 +226,5 @@ CONTRACTS = [
     Contract('same_observations', ['pony.orm.core:Set.load', 'pony.orm.core:Query.prefetch', 'pony.orm.core:Query._do_prefetch', 'pony.orm.core:Set.prefetch_load_all',
                                    'pony.orm.core:Entity._prefetch_load_all_', 'pony.orm.core:Entity._load_', 'pony.orm.core:EntityMeta._load_many_', 'pony.orm.core:Attribute.load'],
              _configs, _case, [('every_loading_strategy_observes_the_baseline_data', lambda cfg, i, path: path.outcome == 'ret' and path.value == [])], level='bounded',
-             bound='5 model variants x 5 loading strategies x 13 observation programs (two of them read after a refused delete, three after pending collection changes, one asks membership questions after partial loads) on one stored data set'),
+             bound='5 model variants x 5 loading strategies x 14 observation programs (two of them read after a refused delete, four after pending collection changes, one asks membership questions after partial loads) on one stored data set'),
 ] + [c for c in __import__('contracts.c10', fromlist=['CONTRACTS']).CONTRACTS if c.id == 'blind_writes_survive_row_loads']          # an object known by key only / partly / completely must show the same values (shared with C10)
